@@ -7,6 +7,7 @@ import (
 	"io"
 	"math/rand/v2"
 	"sort"
+	"strconv"
 	"strings"
 
 	"google.golang.org/grpc/codes"
@@ -455,9 +456,16 @@ func execMix(e *Env, pp any) {
 		e.Note("nontrivial")
 	}
 	e.Notes["recv.window"] += e.W.EventCount("internal/client/stream.go:RecvMsg:select#0:0")
-	checkUnaryPairing(e, sim, "C01")
-	checkStreams(run)
-	checkStatus(run)
+	if p.Opts.Transform {
+		// interceptors rewrite request, reply and error: the plain-value oracles
+		// of C01/C03 do not apply, the transformation oracle does
+		checkTransform(run)
+		checkStreams(run)
+	} else {
+		checkUnaryPairing(e, sim, "C01")
+		checkStreams(run)
+		checkStatus(run)
+	}
 	checkMetadata(run)
 	checkWire(run, false)
 	checkSide(run)
@@ -485,6 +493,16 @@ func init() {
 	reg("mix.metadata", []string{"C04"}, Bias{Streams: 60, Errors: 25, Metadata: 100, MaxMsgs: 4, MaxCalls: 5})
 	reg("mix.early", []string{"C02", "C03", "C06", "C11"}, Bias{Streams: 90, Errors: 30, Metadata: 10, MaxMsgs: 6, MaxCalls: 6, EarlyRet: true})
 	reg("mix.side", []string{"C20"}, Bias{Streams: 55, Errors: 30, Metadata: 10, MaxMsgs: 4, MaxCalls: 6, Intercept: true})
+	Register(&Family{Name: "mix.transform", Props: []string{"C20"}, New: func() any { return &MixParams{} }, Exec: execMix, ShrinkKeys: []string{"callers"},
+		Gen: func(g *rand.Rand, tier string) any {
+			p := genMix(Bias{Streams: 40, Errors: 40, Metadata: 10, MaxMsgs: 4, MaxCalls: 6, Intercept: true})(g, tier).(*MixParams)
+			p.Opts.Transform = true
+			if p.Opts.CliUnary+p.Opts.SrvUnary+p.Opts.SrvStream == 0 {
+				p.Opts.CliUnary, p.Opts.SrvUnary, p.Opts.SrvStream = 1+g.IntN(3), 1+g.IntN(6), 1+g.IntN(6)
+				p.Opts.SrvChain = true
+			}
+			return p
+		}})
 	reg("mix.all", []string{"C01", "C02", "C03", "C04", "C05", "C06", "C20"}, Bias{Streams: 60, Errors: 25, Metadata: 30, MaxMsgs: 8, MaxCalls: 12, Intercept: true, AllTopos: true, LateRecv: true})
 }
 
@@ -883,3 +901,93 @@ func checkMetadata(run *MixRun) {
 }
 
 var errNoResp = errors.New("no response")
+
+// checkTransform (C20): "what interceptors change (request, reply, error) is
+// what the next stage and finally the peer observes". The test interceptors
+// append "|c<i>" / "|s<i>" to the request on the way in and to the reply or
+// the status message on the way out (side.go), so the expected values follow
+// from the configured chain lengths alone.
+func checkTransform(run *MixRun) {
+	e, sim, o := run.E, run.Sim, run.P.Opts
+	const prop = "C20"
+	tags := func(side string, n int, reverse bool) string {
+		var b strings.Builder
+		for i := 0; i < n; i++ {
+			k := i
+			if reverse {
+				k = n - 1 - i
+			}
+			b.WriteString("|" + side + strconv.Itoa(k))
+		}
+		return b.String()
+	}
+	for _, id := range sim.Order {
+		r := sim.Calls[id]
+		c := r.Spec
+		if !r.Started || !r.Returned || r.NewStreamErr != nil {
+			continue
+		}
+		site := "transform." + kindNames[c.Kind]
+		nSrv, nCli := o.SrvStream, 0
+		if c.Kind == KUnary {
+			nSrv, nCli = o.SrvUnary, o.CliUnary
+			if r.HInvoked != 1 {
+				e.Violate(prop, "handler-count", site, "call %d: handler ran %d times", id, r.HInvoked)
+				continue
+			}
+			wantReq := append(append([]byte{}, c.Req...), []byte(tags("c", nCli, false)+tags("s", nSrv, false))...)
+			if !bytes.Equal(r.HReq, wantReq) {
+				e.Violate(prop, "request-transformation-lost", site, "call %d: the handler saw a %d-byte request ending %q; the %d client and %d server interceptors make it end %q",
+					id, len(r.HReq), tail(r.HReq, 24), nCli, nSrv, tail(wantReq, 24))
+			}
+			if c.HStatus == nil {
+				wantResp := append(append([]byte{}, c.Resp...), []byte(tags("s", nSrv, true)+tags("c", nCli, true))...)
+				if r.InvokeErr != nil {
+					e.Violate(prop, "failure-on-success", site, "call %d: handler returned nil, caller observed %v", id, r.InvokeErr)
+				} else if !bytes.Equal(r.InvokeResp, wantResp) {
+					e.Violate(prop, "reply-transformation-lost", site, "call %d: the caller got a %d-byte reply ending %q, want ending %q", id, len(r.InvokeResp), tail(r.InvokeResp, 24), tail(wantResp, 24))
+				}
+				e.Note("transform.unary.ok")
+				continue
+			}
+		}
+		if c.HStatus == nil {
+			continue // streams: data is not rewritten, checkStreams judges it
+		}
+		if c.Kind != KUnary && !readsAll(c.CProg) {
+			continue
+		}
+		got, ok := callerErr(r)
+		if !ok {
+			continue
+		}
+		if got == nil {
+			e.Violate(prop, "success-on-failure", site, "call %d: handler returned %v, caller observed success", id, c.HStatus.Err())
+			continue
+		}
+		gs, isStatus := status.FromError(got)
+		if !isStatus {
+			e.Violate(prop, "not-a-status", site, "call %d: caller error %v (%T) is not a gRPC status", id, got, got)
+			continue
+		}
+		suffix := tags("s", nSrv, true) + tags("c", nCli, true)
+		if nSrv > 0 || c.HStatus.ErrKind == 0 {
+			// the innermost server interceptor turns the handler's error into a
+			// status with status.FromError, exactly as computed here
+			st0, _ := status.FromError(c.HStatus.Err())
+			if gs.Code() != st0.Code() || gs.Message() != st0.Message()+suffix {
+				e.Violate(prop, "error-transformation-lost", site, "call %d: caller status (%v, %q); the interceptors make it (%v, %q)", id, gs.Code(), trunc(gs.Message()), st0.Code(), trunc(st0.Message()+suffix))
+			}
+		} else if !strings.HasSuffix(gs.Message(), suffix) {
+			e.Violate(prop, "error-transformation-lost", site, "call %d: caller status message %q does not end with the interceptors' trail %q", id, trunc(gs.Message()), suffix)
+		}
+		e.Note("transform.error")
+	}
+}
+
+func tail(b []byte, n int) string {
+	if len(b) > n {
+		b = b[len(b)-n:]
+	}
+	return string(b)
+}
